@@ -947,3 +947,25 @@ def conditional_scope_rule(run):
     run.check(handles_if or redeclares, R, R + "|walker|conditional-scope", f.loc(),
               "the declaration walker defers or re-parents what follows an undecided #if",
               "decls::symbol::collect steps over an undecided `#if` like any other node and never re-declares a symbol: a dotted name after the block is declared under the label that precedes the block, although the selected arm declares a label (`a:` / `#if true { b: }` / `.c:` gives `a.c`, and `ld b.c` fails; `#if true { first: }` / `.loop:` fails with `skips a nesting level`)")
+
+
+def simple_lookup_context(run):
+    """conditions of `#if` and the constants they depend on are evaluated before addresses exist, by the `simple` / `certain`
+    variable evaluators; a dotted name in them has to be looked up in the context of the place where it is written, like
+    everywhere else -- not in the global context"""
+    n = 0
+    for name in ("asm::resolver::eval::eval_variable_simple", "asm::resolver::eval::eval_variable_certain"):
+        f = run.prog.fn(name)
+        if f is None:
+            run.violation(R, R + "|lookup|simple-context|" + name, "-", "mechanism not found: %s" % name)
+            continue
+        for bi, t in f.calls():
+            c = t.get("resolved") or t.get("callee") or ""
+            if not re.search(r"SymbolManager(::<.*>)?::(try_get_by_name|get_by_name)$", c):
+                continue
+            n += 1
+            ctxs = [deep(f, a, 4) for a, ty in zip(t["args"], t.get("arg_tys") or []) if "SymbolContext" in ty]
+            ok = bool(ctxs) and not any("new_global" in d or "GLOBAL" in d for d in ctxs)
+            run.check(ok, R, R + "|lookup|simple-context|" + name.rsplit("::", 1)[-1], f.loc(t["span"]), "%s looks names up in the context of use" % name.rsplit("::", 1)[-1],
+                      "%s looks every name up in the global context (%s): a dotted name in an `#if` condition (or in a constant feeding one) is never found - `a:` / `.dbg = true` / `#if .dbg { }` fails with `unknown symbol .dbg`, although `.dbg` works in the same place inside an instruction or a data directive" % (name.rsplit("::", 1)[-1], ctxs))
+    run.floor(R, "lookups of the simple evaluators", n, 2)
